@@ -114,6 +114,7 @@ type Exec struct {
 	aborting bool
 	res      Result
 	objIDs   map[interface{}]int
+	chanPins map[uintptr]interface{}
 	epoch    uint64
 	chans    map[uintptr]*chanState
 	race     *raceState
@@ -139,6 +140,7 @@ func Run(cfg Config, body func()) *Result {
 		maxSteps: cfg.MaxSteps,
 		finished: make(chan struct{}),
 		objIDs:   map[interface{}]int{},
+		chanPins: map[uintptr]interface{}{},
 		epoch:    epochCounter,
 		chans:    map[uintptr]*chanState{},
 		focusCache: map[uintptr]bool{},
